@@ -222,6 +222,10 @@ func c03Files(c *Ctx) {
 		c.Case(int64(i), func(k *K) {
 			r := k.Rand()
 			nh, nr := r.IntN(5), r.IntN(8)
+			if r.IntN(60) == 0 { // many records
+				nr = 300 + r.IntN(2000)
+				k.Count("many_record_files", 1)
+			}
 			var text bytes.Buffer
 			var want []item
 			var wantRecs []item
@@ -242,7 +246,7 @@ func c03Files(c *Ctx) {
 			}
 			// all records marshalled first (results held), then written and compared
 			text.Write(heldMarshalCheck(k, ms, ws))
-			k.Input("text", text.Bytes())
+			k.Input("text", func() string { return describeText(text.Bytes()) })
 			got, over := collect(codecByName("samh").seq(bytes.NewReader(text.Bytes())), len(want)+5)
 			if over || !sameTrace(got, want) {
 				k.Failf("file-readerheader", "ReaderHeader items differ:\n got  %s\n want %s", traceString(got), traceString(want))
